@@ -197,6 +197,33 @@ Proof.
   destruct (cert_sound g n rows Hc s t Hs Ht Hne) as [_ I]. exact (I Hd p Hp0 Hp).
 Qed.
 
+(** two accepted tables agree: Floyd, Dijkstra and DijkstraCache return routes of equal link count *)
+Theorem certified_agree g n r1 r2 s t :
+  cert_ok g n r1 = true -> cert_ok g n r2 = true -> 0 <= s < Z.of_nat n -> 0 <= t < Z.of_nat n -> s <> t ->
+  dget r1 s t = dget r2 s t.
+Proof.
+  intros H1 H2 Hs Ht Hne. apply range_In in Hs. apply range_In in Ht.
+  destruct (cert_sound g n r1 H1 s t Hs Ht Hne) as [F1 I1].
+  destruct (cert_sound g n r2 H2 s t Hs Ht Hne) as [F2 I2].
+  destruct (Z.eq_dec (dget r1 s t) (-1)) as [E1|N1]; destruct (Z.eq_dec (dget r2 s t) (-1)) as [E2|N2].
+  - congruence.
+  - exfalso. destruct (F2 N2) as [(p & P0 & Pp & _) _]. exact (I1 E1 p P0 Pp).
+  - exfalso. destruct (F1 N1) as [(p & P0 & Pp & _) _]. exact (I2 E2 p P0 Pp).
+  - destruct (F1 N1) as [(p1 & P01 & Pp1 & C1) L1]. destruct (F2 N2) as [(p2 & P02 & Pp2 & C2) L2].
+    specialize (L1 p2 P02 Pp2). specialize (L2 p1 P01 Pp1). lia.
+Qed.
+
+(** the Dijkstra loop as pinned (ULONG_MAX wrap, predecessor 0 by default) loses a declared route; the repaired
+    loop finds it.  Graph: 0 -> 1 and 2 -> 1 one-way, loopback edges as do_seal adds them. *)
+Lemma dijkstra_pinned_refuted :
+  let g := [mkedge 0 1 [10]; mkedge 2 1 [11]; mkedge 0 0 [99]; mkedge 1 1 [99]; mkedge 2 2 [99]] in
+  is_route g 0 1 [10] /\ dijkstra_route_len false g 3 0 1 = -1 /\ dijkstra_route_len true g 3 0 1 = 1 /\
+  snd (dijkstra false g 3 0) = [0; 2; 2].
+Proof.
+  cbv zeta. split; [|vm_compute; repeat split; reflexivity].
+  exists [mkedge 0 1 [10]]. repeat split; try discriminate; simpl; auto.
+Qed.
+
 (** Full zone *)
 Theorem full_route_exact g s t L : full_route g s t = Some L -> exists e, In e g /\ eu e = s /\ ev e = t /\ el e = L.
 Proof.
